@@ -611,6 +611,11 @@ func (f *FnEnc) specEnvFor(fr *Frame, cur *State, guard string) *SpecEnv {
 	if fr == f.top {
 		for k, v := range f.params {
 			se.oldVars[k] = v
+			// a parameter (or captured variable) that has no cell of its own
+			// is never assigned: its name denotes its entry value everywhere
+			if fr.byName[k] == nil {
+				se.vars[k] = v
+			}
 		}
 	}
 	return se
@@ -911,6 +916,26 @@ func (f *FnEnc) callWith(fr *Frame, st *State, R string, in ssa.Value, cc *ssa.C
 	}
 	if con != nil {
 		names := paramNames(callee)
+		// a closure's contract may name its captured variables: they denote
+		// the variables' values at the call
+		if len(bindings) == len(callee.FreeVars) {
+			for i, fv := range callee.FreeVars {
+				b := bindings[i]
+				v := b
+				if et := derefType(fv.Type()); et != nil && b.Loc == nil {
+					v = f.load(st, et, ptrAddr(b))
+				} else if b.Loc != nil {
+					a, ok := b.Loc.A.(*ssa.Alloc)
+					cur, have := st.locals[a]
+					if !ok || !have || b.Loc.Off != 0 || et == nil {
+						continue
+					}
+					v = Val{T: et, L: cur}
+				}
+				names = append(names, fv.Name())
+				args = append(append([]Val(nil), args...), v)
+			}
+		}
 		if con.Trusted {
 			f.c.trusted["assumed contract "+f.eng.fnKey(callee)] = true
 		}
